@@ -628,7 +628,7 @@ def run(run: Run):
                     'translate/tr_messages.py, translate/tr_obf.py; source fingerprints of the procedural codec functions']
     run.assumptions += ['field values within the wire domain (predicate `canonical` of C01/Model.v; generated values are checked '
                         'against it by canonicalb)', 'message body shorter than 2^32 bytes']
-    proved = run.prove(['tr_obf', 'tr_messages'], extra_targets=['theories/C01/Eval.vo', 'theories/C02/Model.vo'])
+    proved = run.prove(['tr_obf', 'tr_messages', 'tr_c02conn'], extra_targets=['theories/C01/Eval.vo', 'theories/C02/Model.vo'])
     model_ok = (common.COQ / 'theories' / 'C01' / 'Eval.vo').exists() and (common.COQ / 'gen' / 'SchemaGen.vo').exists() and \
         not any(b[0].startswith('translator:') for b in run.broken)
 
